@@ -227,7 +227,13 @@ class ConditionalEffectsRemover(engines.engine.Engine, CompilerMixin):
         env = new_problem.environment
         simplifier = env.simplifier
         if isinstance(action, up.model.InstantaneousAction):
-            cond_effects = action.conditional_effects
+            # a conditional forall effect is one conditional effect per instantiation
+            # of its variables (its condition may mention them)
+            cond_effects = [
+                ee
+                for e in action.conditional_effects
+                for ee in (e.expand_effect(new_problem) if e.is_forall() else (e,))
+            ]
             for p in powerset(range(len(cond_effects))):
                 new_action = action.clone()
                 new_action.name = get_fresh_name(new_problem, action.name)
@@ -278,7 +284,10 @@ class ConditionalEffectsRemover(engines.engine.Engine, CompilerMixin):
                 action.conditional_effects
             )
             cond_effects_timing: List[Tuple["up.model.Effect", "up.model.Timing"]] = [
-                (e, t) for t, el in timing_cond_effects.items() for e in el
+                (ee, t)
+                for t, el in timing_cond_effects.items()
+                for e in el
+                for ee in (e.expand_effect(new_problem) if e.is_forall() else (e,))
             ]
             for p in powerset(range(len(cond_effects_timing))):
                 new_action = action.clone()
